@@ -1,8 +1,13 @@
 import CattrsModel.Conv.Driver
+import CattrsModel.Disambig.Driver
 open CattrsModel
 
 structure DState where
   world : World := { classes := [], enums := [] }
+
+/-- handlers of the areas that need no driver state, tried in order -/
+def stateless (op : String) (args : List Sexp) : Option Sexp :=
+  (Disambig.disambigHandle op args)
 
 def step (st : DState) (line : String) : DState × String :=
   match Sexp.parseLine line with
@@ -11,7 +16,7 @@ def step (st : DState) (line : String) : DState × String :=
     | some w => ({ st with world := w }, "ok")
     | none => (st, "bad-world")
   | some (.atom op :: args) =>
-    match convHandle st.world op args with
+    match (convHandle st.world op args).orElse (fun _ => stateless op args) with
     | some r => (st, r.toString)
     | none => (st, "bad-op")
   | _ => (st, "bad-line")
